@@ -380,12 +380,6 @@ theorem broadcastMatch_length {α β : Type*} (a₁ : List α) (a₂ : List β) 
     · rw [ih.1]; ring
     · rw [ih.2]; ring
 
-theorem zip_const_left {α β : Type*} (a : α) (l : List β) :
-    (l.map fun _ => a).zip l = l.map fun b => (a, b) := by
-  induction l with
-  | nil => rfl
-  | cons b l ih => simp only [List.map_cons, List.zip_cons_cons, ih]
-
 theorem broadcastMatch_zip {α β : Type*} (a₁ : List α) (a₂ : List β) :
     (broadcastMatch a₁ a₂).1.zip (broadcastMatch a₁ a₂).2 = a₁.flatMap fun a => a₂.map fun b => (a, b) := by
   induction a₁ with
